@@ -8,24 +8,62 @@ P = {'id': 'C03',
               'mixed_absent',
               'zip_get_record',
               'zip_absent',
-              'simplezip_fragment_lossless'],
- 'trusted': ['modelled (M+S): src/blob_store/memory.rs; src/blob_store/mixed_len.rs (bitmap rank as count_occ-style spec rank, UintVecMin0 offsets at '
-             'value level); src/blob_store/zip_offset_builder.rs + zip_offset.rs + sorted_uint_vec.rs (definitions, bit-exact file image compared on every run); '
-             'src/blob_store/simple_zip.rs and zero_length.rs (definitions)',
-             'spec-only cells (direct oracle against a shadow map, no mechanism model): PlainBlobStore, ZstdBlobStore, Huffman/Rans/DictionaryBlobStore, '
-             'CachedBlobStore (3 write strategies, 3 cache presets, cache disabled), every wrapper stack, NestLoudsTrieBlobStore (4 presets, builder, keyed API), '
-             'DictZipBlobStore (presets and entropy stages), ZipOffsetBlobStore with zstd, BatchZipOffsetBlobStoreBuilder',
-             'zstd, the page cache, the trie, PA-Zip and the entropy coders are opaque (properties C01, C02, C05, C17)'],
+              'simplezip_fragment_lossless',
+              'simplezip_get_record',
+              'simplezip_absent',
+              'store_refines_every_history',
+              'mem_store_refines_spec',
+              'zero_history_refines_spec',
+              'plain_store_refines_spec',
+              'plain_history_refines_spec',
+              'plain_history_no_reopen_refines_spec',
+              'plain_ids_not_reused_for_live',
+              'plain_open_existing',
+              'wrapper_refines_spec',
+              'wrapper_history_refines_spec',
+              'huffman_frame_lossless',
+              'zstd_over_memory_history_refines_spec',
+              'huffman_over_memory_history_refines_spec',
+              'pass_over_memory_history_refines_spec',
+              'huffman_over_zstd_over_memory_history_refines_spec',
+              'cached_refines_inner',
+              'cached_removed_not_served',
+              'cached_over_memory_history_refines_spec',
+              'cached_caches_lawful',
+              'dictzip_refines_spec',
+              'dictzip_history_refines_spec',
+              'dictzip_removed_not_served',
+              'dictzip_standins_lawful',
+              'plain_id_wraparound_refuted',
+              'stack_refines_spec',
+              'stack_history_refines_spec'],
+ 'trusted': ['modelled (M+S): src/blob_store/memory.rs; mixed_len.rs (bitmap rank as count_occ-style spec rank, UintVecMin0 offsets at value level); '
+             'zip_offset_builder.rs + zip_offset.rs + sorted_uint_vec.rs (bit-exact file image compared on every run); simple_zip.rs (fragmenting and the string pool); '
+             'zero_length.rs; plain.rs (directory as a finite map, decimal file names, u32 parsing, close + reopen); traits.rs as a record of nine functions; '
+             'compressed.rs ZstdBlobStore, entropy.rs Huffman framing / Rans / Dictionary pass-through as one generic wrapper over an arbitrary inner store and codec; '
+             'cached_store.rs over an arbitrary inner store and an arbitrary page cache that never invents data; dict_zip/blob_store.rs bookkeeping over an arbitrary '
+             'compressor, entropy stage and LRU map with the round-trip laws; every wrapper stack by composition',
+             'spec-only cells (direct oracle against a shadow map, no mechanism model): NestLoudsTrieBlobStore (4 presets, builder, keyed API), ZipOffsetBlobStore with zstd '
+             '(theorem with zstd as a parameter, no evaluated image), BatchZipOffsetBlobStoreBuilder, ZeroLengthBlobStore::finish, MemoryBlobStore::from_data and its serde image',
+             'zstd, the page cache, the LRU map, the trie, PA-Zip and the entropy coders are opaque (properties C01, C02, C05, C17): parameters of the theorems under their '
+             'round-trip laws; in the evaluated cases zstd and the Huffman coder are the finite table of (input, output) pairs observed between two layers of the real stack, '
+             'DictZip and the page cache use the stand-ins of their model files (the theorems say the observations do not depend on them)'],
  'assumptions': ['RecordId is u32, usize is 64 bits',
-                 'agreement of model and code (observations of every operation, the byte-exact saved image of uncompressed ZipOffset stores, '
-                 'pool and fragment counts of SimpleZip, fixed/variable byte counts of MixedLen) is established on the generated cases only'],
- 'level_text': 'Machine-checked Coq theorems about hand-written Gallina models of MemoryBlobStore (every operation history refines the '
-               'property\'s own state machine; ids are handed out by a counter that only grows, so an id is never reused while fewer than 2^32-1 ids were issued; '
-               'refutation witness for the wrap-around) and MixedLenBlobStore (record i = input i for every input and fixed length). The models, plus exact models '
-               'of the ZipOffset builder/file image, SimpleZip and ZeroLength stores, are tied to the code by replaying generated cases in Coq on every run. '
-               'All other store types and wrapper stacks are decided by a history-based differential oracle only, labelled S-only.',
- 'level_note': 'Trusted: Coq kernel + vm_compute; hand-written models; harness generators and shadow-map oracle. HashMap is abstracted as an association list.',
- 'technique': 'Coq refinement proof by induction over operation histories with an abstraction relation; list-decomposition proofs for bulk-built stores; '
-              'model/implementation differential check by vm_compute; history-based differential oracle over every store type and wrapper stack',
- 'explanation': 'Unbounded refinement theorems for MemoryBlobStore and MixedLenBlobStore; bit-exact model correspondence for ZipOffset/SimpleZip/ZeroLength; '
-                'differential oracle for every other store.'}
+                 'the file system never fails and holds no foreign files (PlainBlobStore); the 2^64 byte counter of CachedBlobStore does not wrap',
+                 'agreement of model and code (observations of every operation on every modelled stack, the content of the innermost store, the directory listing of '
+                 'PlainBlobStore, the byte-exact saved image of uncompressed ZipOffset stores, pool and fragment counts of SimpleZip, fixed/variable byte counts of MixedLen) '
+                 'is established on the generated cases only'],
+ 'level_text': 'Machine-checked Coq theorems about hand-written Gallina models: every operation history of MemoryBlobStore, ZeroLengthBlobStore, PlainBlobStore (including '
+               'close + reopen), of every wrapper (Zstd, Huffman framing, Rans/Dictionary pass-through) over any inner store and any lossless codec, of CachedBlobStore over '
+               'any inner store and any page cache that never invents data, and of DictZipBlobStore over any compressor with the round-trip law, refines the property\'s own '
+               'state machine (one generic simulation theorem, instances by composition); bulk-built MixedLen, ZipOffset and SimpleZip stores return record i = input i for '
+               'every input and configuration; ids are never reused for a live record below 2^32-1 issued ids, with refutation witnesses for the counter wrap-around of '
+               'MemoryBlobStore and PlainBlobStore. The models are tied to the code by replaying generated histories of whole store stacks in Coq on every run. '
+               'The remaining store types are decided by a history-based differential oracle only, labelled S-only.',
+ 'level_note': 'Trusted: Coq kernel + vm_compute; hand-written models; harness generators and shadow-map oracle. HashMap and directories are abstracted as association lists; '
+               'opaque codecs and caches are parameters of the theorems.',
+ 'technique': 'Coq refinement proofs: one generic simulation (`refines`) between a store interface and the property\'s state machine, proved per store by an abstraction relation and '
+              'lifted to every history by induction; wrapper and cache theorems generic in the inner store; list-decomposition proofs for bulk-built stores; '
+              'model/implementation differential check by vm_compute on whole stacks; history-based differential oracle over every store type and wrapper stack',
+ 'explanation': 'Unbounded refinement theorems for Memory, ZeroLength, Plain (with reopen), all wrapper stores, CachedBlobStore and the DictZip bookkeeping; record-i theorems for '
+                'MixedLen, ZipOffset and SimpleZip; bit-exact / observation-exact model correspondence on every run; differential oracle for the rest.'}
